@@ -224,6 +224,9 @@ impl Suite for Sched {
                     if !full && *iname == "evict" {
                         continue;
                     }
+                    if !thorough && inj.contains(&"cols3") {
+                        continue;
+                    }
                     cases.push(Case {
                         class: format!("f/{}/{}/{}", label, iname, vname),
                         input: sched_case(variant, *compact, "f", label, *table, 1, "flush", inj),
